@@ -6,16 +6,23 @@ from framework import Outcome
 
 class ThreadsProperty:
     level = "exploration"
+    instr_in_thorough = True      # thorough tier: second pass on the -finstrument-functions build (DESIGN 2.3)
     san = False
     kind = "push"
 
     def gen(self, seed):
-        return dict(sc=th.gen_scenario(seed, self.kind))
+        sc = th.gen_scenario(seed, self.kind)
+        if getattr(self, "instr", False):
+            # instrumented build: extra pre-emption points inside engine code, on average every <n> function calls
+            import random
+            sc["instr"] = random.Random(seed ^ 0x1257).choice((20, 100, 400, 2000))
+        return dict(sc=sc)
 
     def execute(self, case, fresh):
         sc = th.normalise(case["sc"])
         text = th.emit(sc)
-        res = runner.run_fresh(text, san=self.san) if fresh else runner.run(text, san=self.san, timeout=30)
+        variant = "instr" if sc.get("instr") else self.san
+        res = runner.run_fresh(text, san=variant) if fresh else runner.run(text, san=variant, timeout=30)
         return sc, text, res
 
     def outcome(self, sc, text, res, v, stats):
@@ -31,6 +38,7 @@ class ThreadsProperty:
             stats["forced_timeouts"] = e.get("forced_timeouts", 0)
             stats["mutex_blocks"] = e.get("mutex_blocks", 0)
             stats["cond_waits"] = e.get("cond_waits", 0)
+            stats["instr_preemption_points"] = e.get("instr_points", 0)
             ihash = e.get("trace_hash")
         else:
             ihash = None
